@@ -7,7 +7,7 @@ use alloc::{vec, vec::Vec};
 macro_rules! ubitop_shape {
     ($name:ident, $opk:expr, $la:expr, $lb:expr, |$a:ident, $b:ident| $e:expr) => {
         #[kani::proof]
-        #[kani::unwind(10)]
+        #[kani::unwind(34)]
         #[kani::stub(alloc::vec::Vec::shrink_to_fit, vc::noop_shrink)]
         fn $name() {
             let a0: [u64; $la] = vc::any_canon::<$la>();
